@@ -26,7 +26,7 @@ TYPES = (None, '', 'date', 'month', 'week', 'time', 'datetime-local', 'number', 
 VALS_Q = (None, '', '2020-02-29', '2019-W53', '0999-W01', '10000-W10', '10:30', '2020-01-01T10:00', '5', 'x', '1e3', '4' * 4300 + '-01-01')
 VALS_T = VALS_Q + ('2019-W00', '2019-W54', '2020-02-30', '25:00', '24:00', '-', '.5.', '-.5', '0000-01-01', '0000-W01', '2020-13', '2020-00-10',
                    '4' * 4300, '4' * 4300 + '-W01', '١٢', '2020-01-01\n', ' 5', '5 ', '+5', '99999-12-31', '1' * 400)
-EXOTIC = ('\ud800', '\udfff\ud800', 'a\x00b', '\U0010ffff', '\u0130', '\u212a', '\xdf', '\x85', '\u2028')
+EXOTIC = ('\x80', '\x7f\xff\u0100', '\ud800', '\udfff\ud800', 'a\x00b', '\U0010ffff', '\u0130', '\u212a', '\xdf', '\x85', '\u2028')
 KINDS = ('input', 'button', 'select', 'option', 'textarea', 'fieldset', 'form', 'progress', 'a', 'p', 'bdi', 'iframe', 'legend', 'optgroup')
 
 
@@ -135,6 +135,13 @@ def selector_texts(sv, tier='thorough'):
              ':lang(en)', ':lang("*-x")', ':lang("")', ':lang("*")', ':dir(ltr)', ':dir(rtl)',
              '[type=date]', '[min]', '[max=""]', '[value^="2"]', '[dir=auto i]', '[lang|=en]', '[name=n]', '.a', '#x', '[rel~=nofollow]']
     out = []
+    # two pseudo-classes that keep per-call bookkeeping, evaluated in ONE call (a list, and a compound with :has): whatever one of them
+    # remembers must not trip the other
+    keepers = [':default', ':indeterminate', ':checked', ':dir(ltr)', ':lang(en)', ':in-range', ':root', ':-soup-contains(x)', ':has(> input)']
+    for i_, a in enumerate(keepers):
+        for b_ in keepers[i_ + 1:]:
+            out.append(f'{a}, {b_}')
+    out += ['form:has(:indeterminate):has(:default)', ':default:not(:indeterminate)', ':is(:default, :indeterminate, :checked):dir(ltr)']
     for b in base:
         out += [b, f':not({b})']
         if tier != 'quick' or b in simple or b.startswith((':lang', ':dir', ':nth')):
@@ -184,7 +191,7 @@ def wrap(context, batch):
 def shards(tier, seed):
     n = 48 if tier == 'quick' else 160
     return [('odd-all', tier, k, 28) for k in range(28)] + [('main', tier, i, n) for i in range(n)] + \
-        [('odd', tier, 0, 1), ('nontag', tier, 0, 1), ('huge', tier, 0, 1), ('degenerate', tier, 0, 1)] + \
+        [('odd', tier, 0, 1), ('nontag', tier, 0, 1), ('huge', tier, 0, 1), ('degenerate', tier, 0, 1), ('codepoints', tier, 0, 1)] + \
         [('parsed', tier, d, 1) for d in ('forms', 'links', 'iframe', 'foreign', 'struct', 'iframe-meta')]
 
 
@@ -398,6 +405,41 @@ def run_odd(sv, res):
             res.nontrivial += 1
 
 
+def run_codepoints(sv, tier, res):
+    """Every 17th code point (thorough: every one), surrogates included, plus the boundaries, as tag name, attribute name and as the value of the
+    attributes whose content the matcher folds or scans (type, dir, lang): the six entry points return."""
+    edges = [0, 1, 0x1f, 0x20, 0x40, 0x41, 0x5a, 0x5b, 0x60, 0x7a, 0x7b, 0x7e, 0x7f, 0x80, 0x81, 0x9f, 0xa0, 0xff, 0x100, 0x130, 0x131, 0x17f, 0x212a, 0xd7ff, 0xd800, 0xdbff,
+             0xdc00, 0xdfff, 0xe000, 0xfffd, 0xffff, 0x10000, 0x10ffff]
+    cps = edges + list(range(0, 0x110000, 17 if tier == 'quick' else 1))
+    texts = [':dir(ltr)', '[type="x" i]', ':lang(en)', 'xa', '[ka]', ':in-range', ':default']
+    comp = [(t, sv.compile(t)) for t in texts]
+    B = 400
+    for k in range(0, len(cps), B):
+        chunk = cps[k:k + B]
+        for xml in (False, True) if k % (4 * B) == 0 else (False,):
+            forest = (('e', 'form', (), tuple(('e', 'x' + chr(cp) if cp else 'x', (('type', chr(cp)), ('dir', chr(cp) if cp % 2 else 'auto'), ('lang', 'e' + chr(cp)), ('k' + chr(cp), 'v'),
+                                                                                      ('min', '1'), ('value', chr(cp))), (('t', chr(cp)),)) for cp in chunk)),)
+            soup = T.build_api(forest, xml)
+            els = T.elements(soup)
+            for text, c in comp:
+                bad = call_all(sv, c, text, soup, els, res)
+                if bad:
+                    # find one code point
+                    entry, why = bad[0]
+                    culprit = None
+                    for cp in chunk:
+                        s1 = T.build_api((('e', 'form', (), (forest[0][3][chunk.index(cp)],)),), xml)
+                        if call_all(sv, c, text, s1, T.elements(s1), shard.Result()):
+                            culprit = cp
+                            break
+                    res.fail({'layer': 'codepoints', 'cp': culprit if culprit is not None else chunk[0], 'xml': xml, 'selector': text},
+                             {'kind': 'raise', 'exc': why.split(':')[0], 'values': 'code-point-sweep', 'where': 'ascii' if (culprit or 0) < 0x80 else 'surrogate' if 0xd800 <= (culprit or 0) <= 0xdfff else 'non-ascii'},
+                             f'{entry}({text!r}) on a tree carrying U+{(culprit if culprit is not None else chunk[0]):04X} in a tag name / attribute name / type, dir, lang value: {why}')
+                else:
+                    res.outcome('returned')
+        res.nontrivial += 1
+
+
 def _enc(spec):
     def enc(v):
         if isinstance(v, bytes):
@@ -570,6 +612,8 @@ def run_shard(desc):
         run_main(sv, desc[1], desc[2], desc[3], res)
     elif desc[0] == 'odd':
         run_odd(sv, res)
+    elif desc[0] == 'codepoints':
+        run_codepoints(sv, desc[1], res)
     else:
         run_nontag(sv, res)
     return res
@@ -591,6 +635,12 @@ def replay(case):
             return {'kind': 'compile', 'exc': type(e).__name__}, repr(e)
     text = case['selector']
     c = sv.compile(text)
+    if case['layer'] == 'codepoints':
+        cp = case['cp']
+        spec = ('e', 'x' + chr(cp) if cp else 'x', (('type', chr(cp)), ('dir', chr(cp) if cp % 2 else 'auto'), ('lang', 'e' + chr(cp)), ('k' + chr(cp), 'v'), ('min', '1'), ('value', chr(cp))), (('t', chr(cp)),))
+        s1 = T.build_api((('e', 'form', (), (spec,)),), case['xml'])
+        bad = call_all(sv, c, text, s1, T.elements(s1), shard.Result())
+        return ({'kind': 'raise', 'exc': bad[0][1].split(':')[0], 'values': 'code-point-sweep'}, str(bad[0])) if bad else None
     if case['layer'] == 'parsed':
         from . import _docs
         soup = _docs.build(case['doc'], case['kind'])
